@@ -49,6 +49,73 @@ CLAIMS = {
             "one ascending index array in (start, end) order with a non-negative difference, the user measure is honoured. "
             "Shift-by-k and widening corollaries are consequences for monotone measures (typed in C09), not checked directly.",
             "Trusted: API rows np.where/cumsum/cumulative_trapezoid; user-supplied measure modelled as an opaque positive-homogeneous value."),
+    "C01": ("syntax-tree rules + polynomial normal form of single expressions + def-use tags from abstract interpretation",
+            "Decides three structural clauses only: (i) the T=0 handling - the offset is 1 exactly when periods[0]==0, every "
+            "recurrence store is on rows s: so rows below keep their np.zeros value, and row 0 of the third series is minus the "
+            "record; (ii) on both branches the third series is -2*xi*w*v - w^2*u on rows s: with w = c/T, c = 2*pi to 1e-6, u/v "
+            "identified by return position; (iii) both wrappers forward (record, dt, periods, xi) by role and return the three "
+            "series in order. The headline clause - equality with the exact oscillator solution to rounding - is numerical and is "
+            "NOT decided (closed forms of the Nigam-Jennings matrices are not examined).",
+            "Trusted: none beyond the parser; not decided: compute_a_and_b's closed forms, tolerances."),
+    "C02": ("type inference (linearity domain, fixed point over the recurrence loop) + index-offset analysis of the loop + "
+            "element-wise audit of every operation reached on period-indexed data",
+            "Derives for all inputs: the three series are linear in the record (coefficients independent of it, zero initial "
+            "state), spectra are degree-1 and even; the recurrence is causal (state reads strictly before, record reads at or "
+            "before the stored column), time-invariant (coefficients loop-invariant, column 0 never stored, np.zeros state), and "
+            "period-wise independent (only element-wise calls, basic slices, axis=1 reductions and shape-consistent stores touch "
+            "the period axis). Linear + causal + time-invariant + zero state gives the shift clause. Refinement invariance is a "
+            "numerical consequence of C01's exactness and is not decided.",
+            "Trusted: API rows; element-wise / reduction tables in sa/props/c02.py; a vectorised rewrite of the loop is inconclusive, not refuted."),
+    "C03": ("def-use provenance tags, relative-degree typing with a stubbed response, comparison normal forms, kind lattice, "
+            "path enumeration by branch oracle",
+            "Decides: which response series each spectrum derives from and that every unpacking site binds position k to role k "
+            "(incl. ASI/VSI and the object's s_d/s_v/s_a); pseudo S_v/S_a have degree 1/2 in w=2*pi/T relative to S_d; the PGA mask "
+            "is periods < 6*dt (strict) substituting the record's absolute maximum into S_a only, identically in both functions; "
+            "list/tuple period containers raise no TypeError; gen_response_spectrum never mixes interpolated values with the "
+            "original dt, interpolates exactly when target_dt < dt, target_dt = max(T_min/20, dt/min_dt_ratio); energy spectra "
+            "are degree 2, built from the velocity response with one factor dt. Peak and energy *values* are not decided.",
+            "Trusted: API rows; absolute-maximum idiom table."),
+    "C06": ("type inference + global value numbering of symbolic lengths for three-way sibling agreement + package-wide sweep "
+            "for ordering operations on complex data",
+            "Decides: spectrum complex, linear, degree +1 in dt; grid real, degree -1, from 0, arange(points)/(2*points*dt); both of "
+            "length int(N/2) for the N passed as FFT length; the FFT input is the values themselves; the three implementations agree "
+            "per configuration (default next power of two, p2_plus, explicit n, unpadded N=npts); inverse helpers are linear, "
+            "degree -1 in dt, rebuild the upper half by flip(conj(.)), leave bins 0 and n/2 zero and are identical siblings; no "
+            "ordering operation on complex data anywhere; the dominant period is 1/f at argmax|spectrum|. DFT values, Parseval and "
+            "exact reconstruction are delegated to np.fft (trusted), not decided.",
+            "Trusted: API rows np.fft.fft/ifft; value numbering treats int(), ceil, log2, ** as uninterpreted functions."),
+    "C07": ("polynomial normal form of the window expressions + sign/shape typing + comparison-site enumeration + sibling summaries",
+            "Decides: window = (sin(x)/x)**4 in total (any spelling), non-negative, 0/0 entry replaced by literal 1 exactly where "
+            "x == 0; x = band*log10(f/fc); normalisation and weighted sum reduce over the same Fourier-frequency axis giving one "
+            "value per target frequency; output degree 1, even, non-negative in the spectrum (abs taken); bin 0 dropped from "
+            "frequencies and spectrum together; matrix and direct form have equal summaries; forwarders bind by role; bandwidth "
+            "limits are first/last index of one strict mask smooth > max*ratio over the same frequency array. Window values and "
+            "finiteness under underflow are not decided.",
+            "Trusted: API rows; either orientation of f/fc is accepted (the window is even)."),
+    "C14": ("rounding-relation domain (>= / <= / integer / reciprocal-integer relative to x = dt/target) with path enumeration "
+            "over the three regimes; value numbering for the shared factor",
+            "Derives on x>1 an integer factor >= x, on x<1 a reciprocal-integer factor >= x, on x==1 the unrounded factor, hence "
+            "new_dt = dt/factor <= target in every regime (round/int/swapped ceil-floor refute); step, abscissa and new_npts use "
+            "one factor; np.interp over arange(len(values)) on the values themselves; even=True gives 2*int(./2); the Fourier "
+            "resampler follows the same rule; interp_to_approx_dt pairs returned values with returned dt. Floating-point "
+            "quotients next to an integer and band-limited exactness are not decided.",
+            "Trusted: API rows ceil/floor/int/interp; positivity of dt and target."),
+    "C16": ("format-string parsing of the writer, layout table extraction and writer/reader agreement, taint (dtype.names -> dt), "
+            "decision-table exhaustiveness by abstract interpretation",
+            "Decides: values written fixed-point with >= 6 decimals, dt >= 4, count as integer; layout label / '<npts> <dt>' / one "
+            "value per line agrees with the genfromtxt skip arithmetic and the line/token indices of the text reads; returned dt is "
+            "parsed from file text and never from sanitised column names; load_signal returns an object for its default and every "
+            "literal it tests; load_sig/load_asig classes; m scales values only; label only on request; save_signal forwards by "
+            "role. genfromtxt's own parsing is trusted.",
+            "Trusted: np.genfromtxt semantics of skip_header/names; records of length 1 (0-d array) are outside the decided part."),
+    "C17": ("library-namespace resolution against the installed stubs, decision-table extraction, shape typing with "
+            "difference-aware joins, normal-form sibling comparison, loop-carried alias analysis",
+            "Decides: every NumPy/SciPy name reachable from the anchored entry points exists; the cut_off None-pattern table "
+            "(band/low/high with the right element, Nyquist normalisation, order keyword, all three containers); forward-backward "
+            "filtering; length, dt and linearity preserved on every remove_gibbs branch; the two remove_poly implementations have "
+            "equal and correct summaries; add_* guards and element-wise sums; the running average never reads the array it is "
+            "overwriting and both rolling loops use the floor(w/2) window table. Gain, phase and end effects are not decided.",
+            "Trusted: SciPy rows butter/filtfilt (zero phase, squared magnitude); libns treats a literal __all__ in numpy's stub as authoritative."),
 }
 NOT_YET = "check not built yet (build in progress, see DESIGN.md section 8)"
 
